@@ -535,3 +535,15 @@ def run(ctx, rep):
                 rep.violation("sql-parses", "%s/%s" % (s.fn.label(), s.stmt.kind), "statement does not compile against the migrated schema: %s" % err, s.loc())
     clause_sqlite(prog, rep, sch, sites)
     clause_memory(prog, rep)
+    # "restores exactly that group": a restore that fails half-way must leave the live rows as they were, so the deletes and the
+    # re-inserts of the SQLite restore form one transaction (the bracket rule of C12, for the restore)
+    rep.clause("C09.7 the SQLite restore deletes and re-inserts inside one transaction (a refused re-insert undoes the deletes)")
+    import os
+    import sys
+    sys.path.insert(0, os.path.dirname(os.path.abspath(__file__)))
+    import c12
+    ms = prog.find(adt="MdkSqliteStorage", name="rollback_group_to_snapshot", trait="MdkStorageProvider")
+    rep.floor("sql-bracket", "MdkSqliteStorage::rollback_group_to_snapshot", len(ms), 1)
+    if ms:
+        c12.bracket(prog, rep, sites, ms[0], "rollback_group_to_snapshot", lambda st: st.kind == "BEGIN", lambda st: st.kind == "COMMIT",
+                    lambda st: st.kind == "ROLLBACK" and "SAVEPOINT" not in st.text.upper())
